@@ -38,6 +38,7 @@ Inductive handler :=
 | HUpdM (l : N) (k v : Z)
 | HRemM (l : N) (k : Z)
 | HClrM (l : N)
+| HTrnM (l : N) (k d : Z)              (* transform_entry(l, k, |v| Some(v.unwrap_or(0) + d)): an update with a computed value *)
 | HGetM (l : N) (k : Z)                (* get(l, k).and_then(|v| effect(record (EGotM l k v))) *)
 | HSeq (a b : handler)                 (* a.followed_by(b) *)
 | HThen (a b : handler)                (* a.and_then(|()| b): the AndThen machine over an arbitrary first half *)
@@ -96,6 +97,9 @@ Definition do_remove (st : store) (l : N) (k : Z) : store :=
   | Some old => mput st l {| m_content := zremove k (m_content m); m_prev := Some (MRem k old) |}
   | None => st
   end.
+(* transform_entry with a closure that always produces a value: the entry becomes old + d (d if it was absent) *)
+Definition do_transform (st : store) (l : N) (k d : Z) : store :=
+  do_update st l k (match zlookup k (m_content (mget st l)) with Some v => v + d | None => d end)%Z.
 Definition do_clear (st : store) (l : N) : store :=
   let m := mget st l in mput st l {| m_content := []; m_prev := Some (MClr (m_content m)) |}.
 
@@ -158,6 +162,7 @@ Fixpoint step (h : hstate) (st : store) (tr : list event)
   | SLeaf (HUpdM l k v) => (RDone, Some (IMap l), SDone, do_update st l k v, tr)
   | SLeaf (HRemM l k) => (RDone, Some (IMap l), SDone, do_remove st l k, tr)
   | SLeaf (HClrM l) => (RDone, Some (IMap l), SDone, do_clear st l, tr)
+  | SLeaf (HTrnM l k d) => (RDone, Some (IMap l), SDone, do_transform st l k d, tr)
   | SLeaf (HGetM l k) => (RCont, None, SBindRec (EGotM l k (zlookup k (m_content (mget st l)))), st, tr)
   | SLeaf (HSeq a b) | SLeaf (HThen a b) => (RFail, None, SDone, st, tr)           (* not produced by [init] *)
   | SLeaf (HWrap a) => (RFail, None, SDone, st, tr)
@@ -229,6 +234,7 @@ Fixpoint eval (fuel : nat) (lc : lifecycle) (h : handler) (st : store) (tr : lis
       | HUpdM l k v => conseq (eval f lc) lc (Some (IMap l)) (do_update st l k v) tr
       | HRemM l k => conseq (eval f lc) lc (Some (IMap l)) (do_remove st l k) tr
       | HClrM l => conseq (eval f lc) lc (Some (IMap l)) (do_clear st l) tr
+      | HTrnM l k d => conseq (eval f lc) lc (Some (IMap l)) (do_transform st l k d) tr
       | HGetM l k => Some (Ok, st, tr ++ [EGotM l k (zlookup k (m_content (mget st l)))])
       | HSeq a b | HThen a b =>
           match eval f lc a st tr with
